@@ -453,6 +453,13 @@ class Check:
             pkgname = re.search(r"^package (\w+)", text, re.M).group(1)
             seen_pkgs[os.path.dirname(src)] = pkgname
         for d, pkgname in seen_pkgs.items():
+            if not d.startswith(REPO + os.sep):
+                # module-cache package: new files are not picked up there, so the
+                # declaration goes into the first rewritten file of the package
+                first = sorted(x for x in repl if os.path.dirname(x) == d)[0]
+                with open(repl[first], "a") as f:
+                    f.write("\n// VerifNow is the clock used by the rewritten files.\nvar VerifNow = time.Now\n")
+                continue
             dst = os.path.join(self.scratch, "clk_" + hashlib.sha1(d.encode()).hexdigest()[:10] + ".go")
             with open(dst, "w") as f:
                 f.write("package %s\n\nimport \"time\"\n\n// VerifNow is the clock used by the rewritten files.\n"
@@ -517,6 +524,9 @@ class Check:
                     printed_known.add(k["id"])
                 continue
             new.append((sig, desc, replay))
+        for fn in os.listdir(os.path.join(VERIF, "evidence", "replay")):
+            if fn.startswith("%s-%d-" % (self.pid, SEED)):
+                os.remove(os.path.join(VERIF, "evidence", "replay", fn))
         for i, (sig, desc, replay) in enumerate(new[:20]):
             path = os.path.join(VERIF, "evidence", "replay", "%s-%d-%d.json" % (self.pid, SEED, i))
             with open(path, "w") as f:
